@@ -111,6 +111,7 @@ func (s *SequentialPopulationEpochExecutor) prepareForReproduction(ctx context.C
 
 	// Kill off all Organisms marked for death. The remainder will be allowed to reproduce.
 	err := p.purgeOrganisms()
+	verifPrepared(p, s.sortedSpecies, generation)
 	return err
 }
 
